@@ -11,7 +11,7 @@
    Nothing but the statement closed by `exact`, followed by Print Assumptions. *)
 From Coq Require Import String.
 From NV Require Import Base.Tac Base.PyVal Base.PyStr Model.IpText Model.FbSocket Model.AddrText Model.SrcPrelude Model.SrcPreludeText
-  Gen.pysrc_fbsocket_gen Gen.pysrc_ipv4_gen Gen.pysrc_ipv6_gen Proofs.GenOk_Src_C01 Proofs.GenOk_Src_C01_text.
+  Gen.pysrc_fbsocket_gen Gen.pysrc_ipv4_gen Gen.pysrc_ipv6_gen Proofs.GenOk_Src_C01 Proofs.GenOk_Src_C01_text Proofs.GenOk_Src_C01_ntop.
 From NV Require Model.NetText Model.Codec.
 From NV Require Import Proofs.GenOk_Src_C15_ip.
 Import ListNotations.
@@ -26,6 +26,20 @@ Theorem C01_source_tie :
                 if af =? 2 then Fb.inet_pton4 s else if af =? 10 then omap bytes_of_words (Fb.inet_pton6 s) else Raise ValueError).
 Proof. exact C01_tie_fb1_ok. Qed.
 Print Assumptions C01_source_tie.
+
+(* The printing half of netaddr/fbsocket.py: _compact_ipv6_tokens (for every token list) and inet_ntop (for every address family and
+   every byte string; a packed IPv6 address is 16 bytes in the generated code and 8 big-endian words in the model:
+   SrcPreludeText.py_words_of_bytes).  No hypotheses: the generated code carries start_index as None-or-int and answers TypeError
+   where a run without a start would be used; the proof shows that never happens (invariant num_tokens > 0 -> start_index set),
+   so the model's silent drop of such a run (Fb.push_run) is unreachable too. *)
+Theorem C01_source_tie_print :
+  (forall tokens, src_fbsocket__compact_ipv6_tokens tokens = Ok (Fb.compact_ipv6_tokens tokens)) /\
+  (forall af p, src_fbsocket_inet_ntop af p =
+     if af =? 2 then Fb.inet_ntoa p
+     else if af =? 10 then (if Nat.eqb (List.length p) 16 then Fb.inet_ntop6 (py_words_of_bytes p) else Raise ValueError)
+     else Raise ValueError).
+Proof. exact C01_tie_fb2_ok. Qed.
+Print Assumptions C01_source_tie_print.
 
 (* The text functions of netaddr/strategy/ipv4.py and ipv6.py (coq/Gen/pysrc_ipv4_gen.v, pysrc_ipv6_gen.v) against Model/AddrText.v
    (valid_str / str_to_int / int_to_str dispatched on the module version 4 | 6) and Model/NetText.v (expand_partial_address, used by
@@ -60,6 +74,10 @@ Example C01_src_nonvacuous :
   src_fbsocket_inet_pton 10 "1:2:3:4:5:6:7:8"%string = Ok [0; 1; 0; 2; 0; 3; 0; 4; 0; 5; 0; 6; 0; 7; 0; 8] /\
   src_fbsocket_inet_pton 10 "1::2::3"%string = Raise ValueError /\ src_fbsocket_inet_pton 10 "::+1"%string = Raise ValueError /\
   src_fbsocket_inet_pton 3 "::"%string = Raise ValueError /\
+  src_fbsocket__compact_ipv6_tokens ["1"; "0"; "0"; "2"; "0"; "0"; "0"; "3"]%string = Ok ["1"; "0"; "0"; "2"; ""; "3"]%string /\
+  src_fbsocket_inet_ntop 10 [0; 0; 0; 0; 0; 0; 0; 0; 0; 0; 255; 255; 1; 2; 3; 4] = Ok "::ffff:1.2.3.4"%string /\
+  src_fbsocket_inet_ntop 10 [0; 1; 0; 0; 0; 0; 0; 2; 0; 0; 0; 0; 0; 0; 0; 3] = Ok "1:0:0:2::3"%string /\
+  src_fbsocket_inet_ntop 10 [0; 1] = Raise ValueError /\
   src_ipv4_str_to_int Fallback "010.1.2.3"%string 3 = Ok 167838211 /\ src_ipv4_str_to_int Platform "1.2"%string 0 = Ok 16777218 /\
   src_ipv4_str_to_int Platform "1.2"%string 1 = Raise AddrFormatError /\ src_ipv4_valid_str Fallback "1.2.3.256"%string 1 = Ok false /\
   src_ipv4_expand_partial_address "10.1"%string = Ok "10.1.0.0"%string /\ src_ipv4_expand_partial_address "::1"%string = Raise AddrFormatError /\
